@@ -127,7 +127,7 @@ def main(argv=None):
     t0 = time.time()
     sys.path.insert(0, ROOT)
     # the parent does not import jax/ginjax; it reads static config from the module source lazily via a child
-    work = os.path.join(ROOT, ".work", pid)
+    work = os.path.join(ROOT, ".work", pid + os.environ.get("VERIF_EVIDENCE_SUFFIX", ""))  # mutant runs get their own scratch dir
     shutil.rmtree(work, ignore_errors=True)
     os.makedirs(work, exist_ok=True)
 
